@@ -39,6 +39,40 @@ pub fn emit_artefacts(v: &Value) -> Value {
         let res = catch_unwind(AssertUnwindSafe(|| {
             let mut art: Vec<(String, String)> = vec![];
             let group = match split {
+                None if v["incremental"].as_bool() == Some(true) => {
+                    // an incremental build: every emit API is called after every added file (results discarded); what the
+                    // finished group emits must not depend on that history
+                    let mut g = if dev { glass_easel_template_compiler::TmplGroup::new_dev() } else { glass_easel_template_compiler::TmplGroup::new() };
+                    let poke = |g: &glass_easel_template_compiler::TmplGroup, p: &str| {
+                        let _ = g.get_tmpl_gen_object_groups();
+                        let _ = g.get_wx_gen_object_groups();
+                        let _ = g.export_globals();
+                        let _ = g.export_all_scripts();
+                        let _ = g.get_runtime_string();
+                        let _ = g.get_tmpl_gen_object(p);
+                    };
+                    let scripts_first = v["scripts_first"].as_bool().unwrap_or(false);
+                    if scripts_first {
+                        for (path, js) in &scripts {
+                            g.add_script(path, js);
+                            poke(&g, path);
+                        }
+                    }
+                    for (path, src) in &files {
+                        let _ = g.add_tmpl(path, src);
+                        poke(&g, path);
+                    }
+                    if !scripts_first {
+                        for (path, js) in &scripts {
+                            g.add_script(path, js);
+                            poke(&g, &files[0].0);
+                        }
+                    }
+                    if let Some(x) = v["extra"].as_str() {
+                        g.set_extra_runtime_script(x);
+                    }
+                    g
+                }
                 None => {
                     let (mut g, _) = compile_sources(&files, &scripts, dev).map_err(|p| format!("panic: {}", p))?;
                     if let Some(x) = v["extra"].as_str() {
@@ -374,6 +408,34 @@ pub fn eval_case(tier: Tier, c: &Case) -> Result<Outcome, String> {
         if let Some((k, d)) = differ(&base, &r) {
             if !out.failures.iter().any(|f| f.sig.starts_with("C20|repeated-run")) {
                 fail(&mut out, "insertion-order", &k, d, json!({"order": ord}));
+            }
+            break;
+        }
+    }
+    // (b2) incremental builds: emit after every added file, in the original and in permuted orders
+    for ii in 0..tier.pick(3, 8) {
+        let mut ord: Vec<usize> = (0..n).collect();
+        if ii > 0 {
+            for i in (1..n).rev() {
+                let j = rng.below(i as u64 + 1) as usize;
+                ord.swap(i, j);
+            }
+        }
+        let permuted: Vec<(String, String)> = ord.iter().map(|i| sources[*i].clone()).collect();
+        // a group without external references needs no script file: then the inline modules alone decide whether the
+        // script runtime is emitted
+        let any_ref = c.group.files.iter().any(|t| t.wxs.iter().any(|w| matches!(w, crate::model::wxml::Wxs::Ref { .. })));
+        let scriptless = !any_ref && ii % 3 != 1;
+        let sc: Vec<(String, String)> = if scriptless { vec![] } else { scripts.clone() };
+        let expected = if scriptless { emit_artefacts(&req(&sources, &sc, None)) } else { base.clone() };
+        let mut r = req(&permuted, &sc, None);
+        r["incremental"] = json!(true);
+        r["scripts_first"] = json!(ii % 2 == 1);
+        let r = emit_artefacts(&r);
+        out.units += 1;
+        if let Some((k, d)) = differ(&expected, &r) {
+            if out.failures.is_empty() {
+                fail(&mut out, "incremental-build", &k, d, json!({"order": ord, "scripts_first": ii % 2 == 1}));
             }
             break;
         }
